@@ -60,6 +60,7 @@ type InputVal struct {
 
 type Options struct {
 	MaxLen        int   // cap for enumerating a symbolic length/size (values above -> residual)
+	MaxMat        int   // largest slice the engine materialises (default 8192)
 	MaxEnum       int   // cap for enumerating any other symbolic integer that must be concrete
 	LoopBudget    int   // max iterations of any one loop header per frame activation with symbolic exit
 	StepBudget    int64 // instructions per path
